@@ -25,7 +25,7 @@ OPS = ("simA", "simB", "simC", "rf", "rfd", "interp")
 RULE = (
     "case = one call history over {simulate(grid A), simulate(grid B, same length), simulate(grid C, "
     "other length), recovery_factor(), recovery_factor(density=True), recovery_factor_interpolator()} "
-    "for an ideal or single-phase reservoir in one of several configurations (table, nx, pressures, "
+    "for an ideal, single-phase or two-phase (from_table fluid) reservoir in one of several configurations (table, nx, pressures, "
     "grids); ALL sequences up to length 4 (quick) / 5 (thorough) are enumerated, plus the "
     "out-of-alphabet extension with simulate(grid, schedule). Non-trivial = the history contains a "
     "simulate that is followed by at least one other call (so stale state could show); distinct = "
@@ -58,6 +58,11 @@ def generate(ck):
                     continue  # the second configuration stops one level earlier
                 for seq in itertools.product(OPS, repeat=n):
                     descs.append({"cls": cls, "cfg": cfg, "seq": list(seq)})
+    # the two-phase class (a SinglePhaseReservoir subclass with its own simulate signature) on a
+    # from_table fluid: same alphabet, one level shorter
+    for n in range(1, L):
+        for seq in itertools.product(OPS, repeat=n):
+            descs.append({"cls": "twophase", "cfg": 0, "seq": list(seq)})
     # extension outside the property's alphabet
     ext_ops = ("simS", "simA", "simC", "rf", "interp")
     for n in range(2, L):
@@ -86,6 +91,21 @@ def _fresh(cls, cfg):
         with warnings.catch_warnings():
             warnings.simplefilter("ignore")
             _FLUIDS[key] = FlowProperties(tables.from_desc(c["table"]), c["p_i"])
+    if cls == "twophase":
+        if "tp" not in _FLUIDS:
+            import pandas as pd
+
+            from bluebonnet.flow import FlowPropertiesTwoPhase, RelPermParams, TwoPhaseReservoir, relative_permeabilities_twophase
+
+            tab = tables.shipped_multiphase(0.1)
+            cols = {k: np.asarray(tab[k], dtype=float) for k in tables.MP_COLS}
+            kr = relative_permeabilities_twophase(RelPermParams(2.0, 2.0, 2.0, 0.05, 0.15, 0.02, 0.9, 0.5, 0.8), 0.1)
+            with warnings.catch_warnings(), np.errstate(all="ignore"):
+                warnings.simplefilter("ignore")
+                _FLUIDS["tp"] = FlowPropertiesTwoPhase.from_table(pd.DataFrame(cols), kr, {"rho_o0": 50.0, "rho_g0": 0.06, "rho_w0": 62.4}, 0.1, 0.1, 6000.0)
+        from bluebonnet.flow import TwoPhaseReservoir
+
+        return TwoPhaseReservoir(c["nx"], 1000.0, 6000.0, _FLUIDS["tp"], 0.1)
     K = IdealReservoir if cls == "ideal" else SinglePhaseReservoir
     return K(c["nx"], c["p_f"], c["p_i"], _FLUIDS[key])
 
@@ -179,9 +199,18 @@ def run_case(ck, desc):
         bad = []
         if not _same_result(res, fres):
             bad.append("result")
-        for key in ("time", "pseudopressure", "recovery"):
+        # the property names the stored times and field, the returned values and the interpolator's
+        # output; the private `recovery` cache is not compared as such (an interpolator call may
+        # legitimately have filled it) - its staleness shows in the interpolator probe below
+        for key in ("time", "pseudopressure"):
             if not _same(st[key], fst[key]):
                 bad.append(key)
+        if k == len(seq) - 1:
+            # epilogue: what would the interpolator say now? (asked once, after the history)
+            p1, p2 = _apply(obj, "interp", cfg), _apply(fresh, "interp", cfg)
+            ck.count("epilogue_interpolator_probes")
+            if not _same_result(p1, p2):
+                bad.append("interpolator-after-history")
         if bad and stale is None:
             stale = {"after_call": k, "op": op, "differs": bad, "history": seq[: k + 1], "stale_result": res[0] if res[0] == "raise" else "value", "fresh_result": fres[0] if fres[0] == "raise" else "value"}
         # repeating a call with the same arguments returns the same result
